@@ -112,6 +112,48 @@ theorem neutral_of_notMark (x : String) : ∀ (w : List String), (∀ n ∈ w, N
     simp only [depth, h1, h2, if_false]
     exact neutral_of_notMark x ns (fun m hm => h m (by simp [hm])) d
 
+/-- the depth function counts: begins minus ends -/
+theorem depth_counts (x : String) : ∀ (w : List String) (d d' : Nat), depth x d w = some d' →
+    d + w.count ("#loop_" ++ x) = d' + w.count ("#endloop_" ++ x)
+  | [], d, d', h => by simp [depth] at h; simp [h]
+  | n :: ns, d, d', h => by
+    simp only [depth] at h
+    by_cases h1 : n = "#loop_" ++ x
+    · subst h1
+      have hne : "#loop_" ++ x ≠ "#endloop_" ++ x := by
+        intro e
+        have := congrArg String.toList e
+        simp [String.toList_append] at this
+      simp only [if_true] at h
+      have ih := depth_counts x ns (d + 1) d' h
+      simp only [List.count_cons_self, List.count_cons_of_ne hne]
+      omega
+    · simp only [h1, if_false] at h
+      by_cases h2 : n = "#endloop_" ++ x
+      · subst h2
+        simp only [if_true] at h
+        cases d with
+        | zero => simp at h
+        | succ d0 =>
+          simp only at h
+          have ih := depth_counts x ns d0 d' h
+          have hne : "#endloop_" ++ x ≠ "#loop_" ++ x := by
+            intro e
+            have := congrArg String.toList e
+            simp [String.toList_append] at this
+          simp only [List.count_cons_self, List.count_cons_of_ne hne]
+          omega
+      · simp only [h2, if_false] at h
+        have ih := depth_counts x ns d d' h
+        simp only [List.count_cons_of_ne h1, List.count_cons_of_ne h2]
+        exact ih
+
+/-- a neutral sequence has as many ends as begins -/
+theorem neutral_counts {x : String} {w : List String} (h : Neutral x w) :
+    w.count ("#loop_" ++ x) = w.count ("#endloop_" ++ x) := by
+  have := depth_counts x w 0 0 (h 0)
+  omega
+
 /-! ## expression level: no loop marker is recorded -/
 
 /-- since `base`, no loop marker has been recorded -/
@@ -123,8 +165,8 @@ theorem noMarkSince_sameHs {base : List String} {st st2 : St PW PH} (h : NoMarkS
   obtain ⟨w, h1, h2⟩ := h
   exact ⟨w, by unfold evNames at h1 ⊢; rw [hh]; exact h1, h2⟩
 
-theorem markKit (sc : String → Bool) (hk : Option Cfg) (base : List String) :
-    InvKitN ({ host := PyLite.hostObs, sc := sc, hk := hk } : Env PW PH) (NoMarkSince base) (fun _ => True) NotMark where
+theorem markKitS (sc : String → Bool) (hk : Option Cfg) (base : List String) :
+    InvKitS ({ host := PyLite.hostObs, sc := sc, hk := hk } : Env PW PH) (NoMarkSince base) (fun _ => True) NotMark where
   nUser := notMark_of_user
   nValue := by unfold NotMark; decide
   nYield := by unfold NotMark; decide
@@ -181,6 +223,10 @@ theorem markKit (sc : String → Bool) (hk : Option Cfg) (base : List String) :
   pushCur := fun _ _ hp _ => noMarkSince_sameHs hp rfl
   popCur := fun _ hp => noMarkSince_sameHs hp rfl
   curQ := fun _ _ _ _ => trivial
+
+theorem markKit (sc : String → Bool) (hk : Option Cfg) (base : List String) :
+    InvKitN ({ host := PyLite.hostObs, sc := sc, hk := hk } : Env PW PH) (NoMarkSince base) (fun _ => True) NotMark :=
+  (markKitS sc hk base).toN
 
 /-- the computation records no loop marker -/
 def BalM {α} (m : M PW PH α) : Prop :=
